@@ -30,7 +30,7 @@ void __sim_trap_srandom(unsigned s) { mt("srandom"); srandom(s); }
 double __sim_trap_drand48(void) { mt("drand48"); return drand48(); }
 long __sim_trap_lrand48(void) { mt("lrand48"); return lrand48(); }
 long __sim_trap_mrand48(void) { mt("mrand48"); return mrand48(); }
-char* __sim_trap_setlocale(int c, const char* l) { mt("setlocale"); return setlocale(c, l); }
+char* __sim_trap_setlocale(int c, const char* l) { if (l != nullptr) mt("setlocale"); return setlocale(c, l); }   // a pure query (NULL) changes nothing; switching the process locale does
 char* __sim_trap_strerror(int e) { mt("strerror"); return strerror(e); }
 char* __sim_trap_tmpnam(char* s) { mt("tmpnam"); static char none[] = "/nonexistent"; (void)s; return none; }
 char* __sim_trap_ecvt(double v, int n, int* d, int* s) { mt("ecvt"); return ecvt(v, n, d, s); }
